@@ -131,6 +131,7 @@ class Pair(RawPair):
         self.hts = {'c': 0, 's': 0}
         self.max_data = 70000
         self.cl = {}               # (side, sid) -> bytes of the declared content-length still to be sent
+        self.head = set()          # client-opened streams whose request method is HEAD
         self.norm_in = {'c': True, 's': True}    # normalize_inbound_headers of that side (cookie joining)
 
     # ------------------------------------------------------------------
@@ -400,8 +401,23 @@ class Pair(RawPair):
 # ---------------------------------------------------------------------------
 # generation
 
+def with_method(hdrs, exp, method):
+    """Replace the value of the :method field in the call's list (keeping the tuple class and the text / bytes type
+    the generator chose) and in the expectation."""
+    out = []
+    for h in hdrs:
+        n, v = h[0], h[1]
+        nb = n.encode('utf-8') if isinstance(n, str) else bytes(n)
+        if nb.strip().lower() == b':method':
+            nv = method.decode('ascii') if isinstance(v, str) else method
+            h = type(h)(n, nv) if type(h) not in (tuple, list) else type(h)((n, nv))
+        out.append(h)
+    return out, [(n, method if n == b':method' else v) for n, v in exp]
+
+
 def clean_fields(fs):
-    """C01/C16 consistency: no HEAD requests, no 204/304 responses (their bodies are the receiver's to refuse)."""
+    """C01/C16 consistency: no 204/304 responses (their bodies are the receiver's to refuse); HEAD requests are made
+    by with_method() on streams whose answer then carries no payload."""
     out = []
     for n, v in fs:
         if n == b':method' and v == b'HEAD':
@@ -595,9 +611,17 @@ def gen_call(ch, p, side, allow_close, allow_bad):
             # a block that needs CONTINUATION frames (with or without priority fields in front of it)
             hdrs, exp = with_field(hdrs, exp, (b'x-big', b'B' * ch.pick([16300, 17000, 40000])))
             p.stats['multi-frame-header-block'] += 1
+        head = client and ch.chance(28)
+        if head:
+            # a HEAD request (with or without body and trailers): the answer may declare any content-length and
+            # carries no payload; the client has to remember the method until the answer is complete
+            hdrs, exp = with_method(hdrs, exp, b'HEAD')
 
         def ok(o, base):
             m.apply_send_headers(sid, what, es)
+            if head:
+                p.head.add(sid)
+                p.stats['head-request'] += 1
             if declared is not None:
                 p.cl[(side, sid)] = declared
                 p.stats['content-length-declared'] += 1
@@ -637,13 +661,24 @@ def gen_call(ch, p, side, allow_close, allow_bad):
         if kind == 'trailers' and p.cl.get((side, sid), 0) > 0:
             return       # trailers end the stream: the declared body has to be complete first
         declared = None
+        to_head = not client and sid in p.head
         if kind == 'final' and not es and verdict == M.PERMIT and ch.chance(56):
             declared = ch.pick([0, 1, 5, 100, 20000])
+            hdrs, exp = with_content_length(hdrs, exp, declared)
+        elif kind == 'final' and es and verdict == M.PERMIT and to_head and ch.chance(160):
+            # the answer to HEAD: the length the entity would have, END_STREAM on the header block
+            declared = ch.pick([0, 5, 100, 1048576])
             hdrs, exp = with_content_length(hdrs, exp, declared)
 
         def ok(o, base):
             m.apply_send_headers(sid, what, es)
-            if declared is not None:
+            if to_head and kind == 'final':
+                # whatever is declared, no payload byte follows
+                p.cl[(side, sid)] = 0
+                p.stats['answer-to-head'] += 1
+                if declared:
+                    p.stats['answer-to-head-declares-length'] += 1
+            elif declared is not None:
                 p.cl[(side, sid)] = declared
                 p.stats['content-length-declared'] += 1
             evs = [(cls, sid, exp, es, False)]
